@@ -234,3 +234,37 @@ extern "C" void h_std_equalities(void) {
    vp_assert((t5 == lx.int_type().transfer()) == (a.len == 0) && (t5 == t) == isCxx, 9);
    vp_done();
 }
+
+// growing sequences: every derived operation is re-evaluated on the same sequence object after each explicit addition (0 -> 1 -> 2 -> 3
+// members), with the operations of the previous size already evaluated (nothing may be remembered about an earlier size)
+extern "C" void h_growing_sequences(void) {
+   World* w = new World; auto& lx = w->lx;
+   unsigned kind = vp_pick(8);
+   impl::Enum* e = lx.make_enum(*w->unit.global_region(), ipr::Enum::Kind::Scoped); impl::Mapping* m = lx.make_mapping(*w->unit.global_region(), Mapping_level{ 1 });
+   impl::Class* c = lx.make_class(*w->unit.global_region()); impl::Block* b = lx.make_block(*w->unit.global_region()); impl::Namespace* ns = lx.make_namespace(*w->unit.global_region());
+   impl::Expr_list* xl = lx.make_expr_list(); impl::Warehouse<ipr::Type>* wh = new impl::Warehouse<ipr::Type>;
+   for (unsigned n = 0; n <= 3; ++n) {
+      if (n > 0) switch (kind) {
+         case 0: e->add_member(*w->N[n - 1]); break;
+         case 1: m->param(*w->N[n - 1], *w->T[n - 1]); break;
+         case 2: c->declare_base(*w->T[n - 1]); break;
+         case 3: b->new_handler(*w->N[n - 1], *w->T[n - 1]); break;
+         case 4: ns->declare_var(*w->N[n - 1], *w->T[n - 1]); break;
+         case 5: xl->push_back(lx.make_id_expr(*w->N[n - 1])); break;
+         case 6: c->declare_field(*w->N[n - 1], *w->T[n - 1]); break;
+         default: wh->push_back(*w->T[n - 1]); break;
+      }
+      switch (kind) {
+         case 0: check_seq(static_cast<const ipr::Enum&>(*e).members(), n, 500); check_seq(static_cast<const ipr::Enum&>(*e).scope().elements(), n, 510); break;
+         case 1: check_seq(m->parameters().elements(), n, 520); { const ipr::Parameter_list& pl = m->parameters(); vp_assert(pl.size() == n && (pl.begin() == pl.end()) == (n == 0) && pl.end() == pl.elements().position(n), 530); } break;
+         case 2: check_seq(static_cast<const ipr::Class&>(*c).bases(), n, 540); break;
+         case 3: check_seq(static_cast<const ipr::Block&>(*b).handlers(), n, 550); vp_assert(static_cast<const ipr::Block&>(*b).try_block() == (n != 0), 560); break;
+         case 4: { const ipr::Scope& sc = ns->body.scope; check_seq(sc.elements(), n, 570); vp_assert(sc.size() == n && (sc.begin() == sc.end()) == (n == 0) && sc.end() == sc.elements().position(n), 580);
+                   check_seq(static_cast<const ipr::Namespace&>(*ns).members(), n, 590); break; }
+         case 5: check_seq(static_cast<const ipr::Expr_list&>(*xl).elements(), n, 600); vp_assert(static_cast<const ipr::Expr_list&>(*xl).size() == n, 610); break;
+         case 6: check_seq(static_cast<const ipr::Class&>(*c).members(), n, 620); break;
+         default: check_seq(wh->rep(), n, 630); break;
+      }
+   }
+   vp_done();
+}
